@@ -218,6 +218,7 @@ def run(ctx: Context) -> None:
     ctx.rule("C11c", "no callable flowing into a dask.delayed region draws from a generator shared between shots")
     ctx.rule("C11d", "parallel loops write only loop-locals, induction-indexed elements or whole-variable reductions; the jobs of the native permanent tile the Gray-code range exactly for every job count (S(0)=0, E(K-1)=M-1, S(j+1)=E(j)+1, proved by case split on the comparisons)")
     ctx.rule("C11g", "no Python code of the package reads the number of workers (numba.get_num_threads, NUMBA_NUM_THREADS, cpu_count, ...): the value of a kernel cannot be a function of the thread count")
+    ctx.rule("C11h", "a hand-written cache (decorator that stores f(...) under a key) keys on every attribute of self that the cached method reads and that a method other than __init__ re-assigns")
     ctx.rule("C11e", "memoised results are never written in place")
     ctx.rule("C11f", "no object that the shots of a dask.delayed region share (bound once by partial(...), or a free variable of the per-shot closure) is written in place by the per-shot callable")
     pv = Provenance(idx, res)
@@ -228,6 +229,7 @@ def run(ctx: Context) -> None:
     clause_d(ctx, idx)
     clause_e(ctx, idx, res, an)
     clause_g(ctx, idx)
+    clause_h(ctx, idx)
 
 
 # ================================================================================================ (a)
@@ -798,3 +800,121 @@ def clause_g(ctx: Context, idx) -> None:
         raise AnalysisError("C11g: the positive fixture stubs/thread_count_fixture.py is no longer matched")
     ctx.obligation("C11g", "package|no read of the worker count", not hits, functions=n_fn, fixture_matches=fx)
     ctx.require_floor("C11g python functions scanned for reads of the worker count", n_fn, 600)
+
+
+def _memo_wrappers(tree: ast.AST):
+    """(decorator function, wrapper function, key expression, wrapped-callable name) for hand-written caching decorators:
+    def deco(f): def wrapper(*params): key = <expr>; if key not in memo: memo[key] = f(...); return memo[key]; return wrapper"""
+    out = []
+    for deco in ast.walk(tree):
+        if not isinstance(deco, ast.FunctionDef) or len(deco.args.args) != 1:
+            continue
+        wrapped = deco.args.args[0].arg
+        for w in deco.body:
+            if not isinstance(w, ast.FunctionDef):
+                continue
+            stores = [s for s in ast.walk(w) if isinstance(s, ast.Assign) and len(s.targets) == 1 and isinstance(s.targets[0], ast.Subscript)
+                      and isinstance(s.value, ast.Call) and isinstance(s.value.func, ast.Name) and s.value.func.id == wrapped]
+            if not stores:
+                continue
+            key_node = stores[0].targets[0].slice
+            key_expr = key_node
+            if isinstance(key_node, ast.Name):
+                defs = [a.value for a in ast.walk(w) if isinstance(a, ast.Assign) and len(a.targets) == 1 and isinstance(a.targets[0], ast.Name)
+                        and a.targets[0].id == key_node.id]
+                if len(defs) == 1:
+                    key_expr = defs[0]
+            out.append((deco, w, key_expr, wrapped))
+    return out
+
+
+def clause_h(ctx: Context, idx) -> None:
+    """A hand-written cache makes a result depend on what ran before unless its key covers everything the cached function reads that can
+    change: for a cached method, every attribute of `self` that the method reads and that some method other than `__init__` assigns must
+    occur in the key (or the cache must be dropped where it is assigned)."""
+    n = 0
+
+    def check_module(mname: str, tree: ast.AST, path: str, class_lookup) -> List[Tuple[str, int, str, str]]:
+        found = []
+        for deco, w, key_expr, wrapped in _memo_wrappers(tree):
+            dname = deco.name
+            params = [a.arg for a in w.args.args]
+            if not params:
+                continue
+            me = params[0]
+            key_attrs = {x.attr for x in ast.walk(key_expr) if isinstance(x, ast.Attribute) and isinstance(x.value, ast.Name) and x.value.id == me}
+            for cls_node, meth in class_lookup(dname):
+                mself = meth.args.args[0].arg if meth.args.args else None
+                reads = {x.attr for x in ast.walk(meth) if isinstance(x, ast.Attribute) and isinstance(x.value, ast.Name) and x.value.id == mself
+                         and isinstance(x.ctx, ast.Load)}
+                for attr in sorted(reads - key_attrs):
+                    writers = class_writers(cls_node, attr)
+                    if writers:
+                        found.append((f"{mname}:{cls_node.name}.{meth.name}", w.lineno, attr, ", ".join(sorted(writers))))
+        return found
+
+    def class_writers(cls_node: ast.ClassDef, attr: str) -> Set[str]:
+        out: Set[str] = set()
+        # the class itself and, through the index, its bases
+        nodes = [cls_node]
+        for m in idx.modules.values():
+            for c in m.classes.values():
+                if c.node is cls_node:
+                    nodes = [b.node for b in c.mro()]
+        for cn in nodes:
+            for f in cn.body:
+                if isinstance(f, ast.FunctionDef) and f.name != "__init__" and f.args.args:
+                    me = f.args.args[0].arg
+                    for s in ast.walk(f):
+                        if isinstance(s, (ast.Assign, ast.AugAssign)):
+                            for t in (s.targets if isinstance(s, ast.Assign) else [s.target]):
+                                base = t
+                                while isinstance(base, ast.Subscript):
+                                    base = base.value
+                                if isinstance(base, ast.Attribute) and base.attr == attr and isinstance(base.value, ast.Name) and base.value.id == me:
+                                    out.add(f.name)
+                        # self.attr.update(...) / .pop / .clear / .append ...: the object the attribute holds is changed in place
+                        if isinstance(s, ast.Call) and isinstance(s.func, ast.Attribute) and s.func.attr in ("update", "pop", "clear", "setdefault", "append", "extend", "popitem", "remove", "insert") \
+                                and isinstance(s.func.value, ast.Attribute) and s.func.value.attr == attr and isinstance(s.func.value.value, ast.Name) \
+                                and s.func.value.value.id == me:
+                            out.add(f.name)
+        return out
+
+    total_wrappers = 0
+    for mname, m in sorted(idx.modules.items()):
+        if not mname.startswith("piquasso."):
+            continue
+        wrappers = _memo_wrappers(m.tree)
+        total_wrappers += len(wrappers)
+        if not wrappers:
+            continue
+
+        def lookup(dname, _m=m):
+            for c in ast.walk(_m.tree):
+                if isinstance(c, ast.ClassDef):
+                    for f in c.body:
+                        if isinstance(f, ast.FunctionDef) and any((dotted(d.func if isinstance(d, ast.Call) else d) or "").split(".")[-1] == dname for d in f.decorator_list):
+                            yield c, f
+
+        for where, line, attr, writers in check_module(mname, m.tree, m.path, lookup):
+            n += 1
+            key = f"{where}|cache key omits self.{attr}"
+            ctx.violation("C11h", key, m.path, line,
+                          f"the cached value of {where.split(':')[-1]} depends on `self.{attr}`, which {writers} re-assign(s), but the cache key does not "
+                          f"contain it: after the attribute changes (e.g. outcome-dependent parameters resolved per branch) the stale value of an "
+                          f"earlier call is returned", f"self.{attr}")
+    # positive fixture
+    fx = os.path.join(os.path.dirname(os.path.dirname(os.path.dirname(os.path.abspath(__file__)))), "stubs", "memo_key_fixture.py")
+    ftree = ast.parse(open(fx).read())
+
+    def flookup(dname):
+        for c in ast.walk(ftree):
+            if isinstance(c, ast.ClassDef):
+                for f in c.body:
+                    if isinstance(f, ast.FunctionDef) and any((dotted(d) or "").split(".")[-1] == dname for d in f.decorator_list):
+                        yield c, f
+
+    hits = check_module("fixture", ftree, fx, flookup)
+    if not any(h[2] == "_params" for h in hits):
+        raise AnalysisError("C11h: the positive fixture stubs/memo_key_fixture.py is no longer matched")
+    ctx.obligation("C11h", "package|hand-written caches key on everything mutable they read", n == 0, wrappers=total_wrappers, fixture_matches=len(hits))
